@@ -349,11 +349,26 @@ func genWCase(t *rapid.T, allowSecond bool, big bool) *WCase {
 		}
 	case k.packed:
 		n := rapid.SampledFrom([]int{0, 1, 1, 2, 2, 3, 5, 16, 17, 127, 128, 129, 300}).Draw(t, "plen")
-		if n > 20 {
+		if rapid.Bool().Draw(t, "plenany") {
+			n = rapid.IntRange(0, 40).Draw(t, "plenu") // every short length: the payload crosses the 1-byte length prefix limit somewhere in here
+		}
+		// value regime of the list: mixed widths, every element as wide as the kind allows (negative / all-ones),
+		// every element one byte wide - the payload size, and with it the length prefix, depends on it
+		regime := rapid.SampledFrom([]string{"mixed", "mixed", "widest", "narrowest"}).Draw(t, "pregime")
+		elem := func() uint64 {
+			switch regime {
+			case "widest":
+				return ^uint64(rapid.IntRange(0, 1000).Draw(t, "pw"))
+			case "narrowest":
+				return uint64(rapid.IntRange(0, 63).Draw(t, "pn"))
+			}
+			return genValsFor(t, k, "pv")
+		}
+		if n > 40 {
 			// long lists: a few drawn values repeated
 			base := make([]uint64, 3)
 			for i := range base {
-				base[i] = genValsFor(t, k, "pv")
+				base[i] = elem()
 			}
 			c.Vals = make([]uint64, n)
 			for i := range c.Vals {
@@ -362,7 +377,7 @@ func genWCase(t *rapid.T, allowSecond bool, big bool) *WCase {
 		} else {
 			c.Vals = make([]uint64, n)
 			for i := range c.Vals {
-				c.Vals[i] = genValsFor(t, k, "pv")
+				c.Vals[i] = elem()
 			}
 		}
 	default:
@@ -399,6 +414,20 @@ func sweepCases(yield func(*WCase)) {
 					}
 				case k.packed:
 					yield(&WCase{Kind: k.name, Num: num, Mode: mode, Vals: []uint64{}})
+					if num == nums[0] || num == nums[len(nums)-1] {
+						// payload-size sweep: every list length whose payload lies around the 1- and 2-byte
+						// length-prefix limits (128, 16384 bytes) for elements 1, 2, 4, 5, 8 and 10 bytes wide,
+						// with every element as wide as the kind allows and with every element one byte wide
+						for _, regime := range []uint64{^uint64(0), 1} {
+							for _, n := range packedSweepLens {
+								vs := make([]uint64, n)
+								for j := range vs {
+									vs[j] = regime - uint64(j%3)*(regime&2) // all-ones, all-ones-2, ... / 1
+								}
+								yield(&WCase{Kind: k.name, Num: num, Mode: mode, Vals: vs})
+							}
+						}
+					}
 					for i, v := range vals {
 						yield(&WCase{Kind: k.name, Num: num, Mode: mode, Vals: []uint64{v}})
 						if i%8 == 0 {
@@ -414,6 +443,21 @@ func sweepCases(yield func(*WCase)) {
 		}
 	}
 }
+
+// packedSweepLens: 0..140 and the element counts at which a payload of 1-, 2-, 4-, 5-, 8- or 10-byte elements
+// crosses 16384 bytes.
+var packedSweepLens = func() []int {
+	var out []int
+	for n := 0; n <= 140; n++ {
+		out = append(out, n)
+	}
+	for _, w := range []int{10, 8, 5, 4, 2, 1} {
+		for n := 16384/w - 2; n <= 16384/w+2; n++ {
+			out = append(out, n)
+		}
+	}
+	return out
+}()
 
 func runWCases(t *testing.T, rec *ev.Recorder, test string, oracle func(*WCase) *ev.Failure, nRandom int, salt uint64) {
 	i, n := ev.Shard()
@@ -467,7 +511,7 @@ func classOfKind(k *kind) string {
 }
 
 const ruleC01 = "case = (kind in 15 scalar kinds + 13 packed kinds, field number, value or list, decoder mode, optional second field); " +
-	"deterministic boundary sweep (every bit-length class +-1, both signs, NaN payloads, lengths at varint boundaries x key-size boundary numbers x mode) plus rapid-random cases; " +
+	"deterministic boundary sweep (every bit-length class +-1, both signs, NaN payloads, lengths at varint boundaries x key-size boundary numbers x mode; for every packed kind every list length 0..140 and the lengths at which the payload crosses 16384 bytes, with all-widest and all-narrowest elements) plus rapid-random cases; " +
 	"thorough adds exhaustive enumerations (all 2^32 values of each 32-bit kind at numbers 1 and 2^29-1; all field numbers x 4 wire types), counted as distinct by construction; " +
 	"non-trivial = value != zero value, or key longer than one byte, or list length >= 2, or non-empty payload; distinct by (kind, number, mode, value bytes)"
 
